@@ -122,7 +122,7 @@ fn run_case(ctx: &mut Ctx, idx: u64) {
                 break;
             }
             _ => {
-                if is_resource_stop(&a) || is_resource_stop(&b) {
+                if is_resource_stop(&a) || is_resource_stop(&b) || resource_stop_on_replay(&fs, &g, &hist) || resource_stop_on_replay(&f0, &g, &hist) {
                     // a resource limit hit by one configuration only is not a mask difference
                     ctx.rep.inconclusive("resource_stop_one_side");
                     break;
